@@ -89,7 +89,8 @@ class _Twin(ast.NodeTransformer):
         # `global` / `nonlocal` declarations must stay ahead of the parameter hooks' uses
         decls = [s for s in body if isinstance(s, (ast.Global, ast.Nonlocal))]
         rest = [s for s in body if not isinstance(s, (ast.Global, ast.Nonlocal))]
-        inner = pre + self.body(rest)
+        # the entry event belongs to the activation: if its delivery raises, #error and #exit follow
+        inner = [ast.Expr(self.meta("#enter"))] + pre + self.body(rest)
         # falling off the end is a normal completion returning None
         inner.append(ast.Return(value=self.meta("#value", ast.Constant(None))))
         handler = ast.ExceptHandler(
@@ -101,7 +102,7 @@ class _Twin(ast.NodeTransformer):
         new = ast.FunctionDef(
             name=self.fname,
             args=node.args,
-            body=doc + decls + [ast.Expr(self.meta("#enter")), tr],
+            body=doc + decls + [tr],
             decorator_list=[],
             returns=node.returns,
             type_comment=None,
@@ -207,7 +208,7 @@ class _Twin(ast.NodeTransformer):
         enters = [ast.Expr(self.meta(f"#loop_{nm}")) for nm in names]
         exits = [ast.Expr(self.meta(f"#endloop_{nm}")) for nm in names]
         if names:
-            node.body = enters + [ast.Try(body=inner, handlers=[], orelse=[], finalbody=exits)]
+            node.body = [ast.Try(body=enters + inner, handlers=[], orelse=[], finalbody=exits)]
         else:
             node.body = inner
         node.orelse = self.body(node.orelse)
